@@ -125,4 +125,48 @@ func init() {
 			What:   "URLToClientConfig on EVERY string of up to 10 bytes, with the real net/url.Parse executed symbolically: an error or a config, never a panic",
 			Bounds: "strings <= 10 bytes (covers every prefix relation with \"mieru://\"); base64 and protobuf decoding opaque", Outside: "longer links (the only length-dependent step is the 8-byte prefix cut)"},
 	)
+	sess := map[string]string{
+		"github.com/google/btree.NewG":                           "vTreeNew",
+		"(*github.com/google/btree.BTreeG[T]).Len":               "vTreeLen",
+		"(*github.com/google/btree.BTreeG[T]).ReplaceOrInsert":   "vTreeReplaceOrInsert",
+		"(*github.com/google/btree.BTreeG[T]).Min":               "vTreeMin",
+		"(*github.com/google/btree.BTreeG[T]).Max":               "vTreeMax",
+		"(*github.com/google/btree.BTreeG[T]).DeleteMin":         "vTreeDeleteMin",
+		"(*github.com/google/btree.BTreeG[T]).Clear":             "vTreeClear",
+		"(*github.com/google/btree.BTreeG[T]).Ascend":            "vTreeAscend",
+		"(*github.com/enfein/mieru/v3/pkg/protocol.Session).output": "vStubOutput",
+		"github.com/enfein/mieru/v3/pkg/metrics.RegisterMetric":  "vStubRegisterMetric",
+	}
+	sessLB := map[string]int{"closeWithError": 1001}
+	sessNote := "B-tree replaced by a sorted-set model of capacity 4 (DESIGN 3.5); Session.output and metric registration stubbed; mutexes no-ops (mutual exclusion assumed); goroutine interleavings other than the modelled ones outside the claim"
+	reg("C13",
+		HarnessDef{ID: "H13.1", Spec: HarnessSpec{Name: "vH_C13_inputData_packet", Pkg: "pkg/protocol", LoopBound: 8, LoopBounds: sessLB, TimeoutS: 240, Par: 6, Redirects: sess},
+			What:   "UDP receive side, one step of the real Session.inputData/moveRecvBufToRecvQueue from an arbitrary (nextRecv, recvBuf) state and an arbitrary incoming data segment: nextRecv advances exactly over the consecutive run delivered, duplicates dropped, nothing beyond a gap delivered or acknowledged",
+			Bounds: "<= 2 buffered out-of-order segments, payload <= 2 bytes, sequence numbers within 8 of nextRecv, no 32-bit wrap", Outside: sessNote},
+	)
+	reg("C01",
+		HarnessDef{ID: "H1.3", Spec: HarnessSpec{Name: "vH_C01_read_step", Pkg: "pkg/protocol", LoopBound: 8, LoopBounds: sessLB, TimeoutS: 240, Par: 6, Redirects: sess},
+			What:   "one real Session.Read from an arbitrary (unreadBuf, recvQueue) state with an arbitrary buffer size: returned bytes are the next n bytes of the stream in order, n >= 1 when data is available, the remainder stays queued in order, nothing lost or duplicated",
+			Bounds: "unreadBuf <= 3 bytes, <= 2 queued segments of <= 2 bytes, buffer 0..4 bytes, both transports, client and server", Outside: sessNote},
+	)
+	reg("C10",
+		HarnessDef{ID: "H10.1", Spec: HarnessSpec{Name: "vH_C10_input_nopanic", Pkg: "pkg/protocol", LoopBound: 8, LoopBounds: sessLB, TimeoutS: 240, Par: 6, Redirects: sess},
+			What:   "real Session.input on any authenticated segment (every protocol byte 0..255, both metadata kinds, arbitrary seq/ack/window/fragment/status fields, cipher of ANY user incl. not the session's owner) against client/server x TCP/UDP x attached/established x bound/unbound sessions: no reachable panic",
+			Bounds: "user names <= 2 bytes, empty receive/send buffers in the pre-state", Outside: sessNote},
+	)
+	reg("C15",
+		HarnessDef{ID: "H15.1", Spec: HarnessSpec{Name: "vH_C15_close_twice", Pkg: "pkg/protocol", LoopBound: 8, LoopBounds: sessLB, TimeoutS: 240, Par: 4, Redirects: sess},
+			What:   "Close / closeWithError repeated three times in any of the session states: no panic, closedChan closed exactly once, at most one close request emitted, Write afterwards fails and Read with nothing queued returns io.EOF (no blocking)",
+			Bounds: "sequential calls on one goroutine", Outside: "promptness in seconds, leaked goroutines, data races, arbitrary interleavings of Close with blocked peers (not decidable by sequential symbolic execution)"},
+	)
+	reg("C16",
+		HarnessDef{ID: "H16.1", Spec: HarnessSpec{Name: "vH_C16_newconfig", Pkg: "apis/trafficpattern", LoopBound: 40, TimeoutS: 240, Par: 6},
+			What:   "NewConfig/generateImplicitTrafficPattern over every valid TrafficPattern (each optional field independently nil or any admitted value): explicit fields identical in Effective(), all implicit fields generated, Validate(Effective()) == nil, NONCE_TYPE_FIXED never generated, deterministic on a second derivation, invalid patterns rejected",
+			Bounds: "customHexStrings empty; rng.FixedInt an uninterpreted function of (n, hint); proto.Clone = deep copy", Outside: "Encode/Decode (protobuf + base64 reflection code); hex prefixes"},
+	)
+	reg("C19",
+		HarnessDef{ID: "H19.1a", Spec: HarnessSpec{Name: "vH_C19_rollup_order2", Pkg: "pkg/metrics", LoopBound: 6, TimeoutS: 600, Par: 4},
+			What:   "Counter.doRollUp (first pass) on two un-rolled entries with arbitrary ordered times and an arbitrary non-decreasing clock at every reading: total preserved, history stays ordered in time, DeltaBetween of any window <= total",
+			Bounds: "2 entries, times 2020..2100 in ms", Outside: "longer histories and later passes (H19.1b when listed)"},
+	)
 }
